@@ -78,7 +78,7 @@ class RpcWorld(World):
             "uuid4 (seeded)"]
     PROBES = ["retry_taken", "seq_wrap", "stale_rejected", "reconnect_after_release", "late_reply_discarded",
               "oneway_then_call", "recovered_after_failure", "remote_exception", "batch", "stream_item", "attr",
-              "comm_error", "timeout_error"]
+              "comm_error", "timeout_error", "stream_exhausted"]
     RULE = ("plan = (server type, serializer, compression, MAX_RETRIES, proxy timeout, initial sequence number, 3-12 calls, "
             "<= 6 message-level faults keyed by INVOKE ordinal / handshake ordinal, fragmentation); distinct = distinct "
             "interleaving digest; non-trivial = at least one fault fired")
@@ -331,10 +331,11 @@ class RpcWorld(World):
                     if r["out"][0] == "ok":
                         it = r["out"][1]
                         r["out"] = ("ok", "<iterator>")
-                        for j in range(c["n"] + 1):
-                            rr = classify(lambda: next(it), {"i": i, "kind": "stream-next", "tok": tok, "j": j})
-                            if rr["out"][0] in ("stop", "comm", "pyro", "other"):
+                        for j in range(c["n"] + 2):
+                            rr = classify(lambda: next(it), {"i": i, "kind": "stream-next", "tok": tok, "j": j, "n": c["n"]})
+                            if rr["out"][0] in ("stop", "pyro", "other"):
                                 break
+                            # after a communication error the consumer keeps iterating (what a reconnecting client does)
                         it.close()
                         del it
             try:
@@ -477,8 +478,14 @@ class RpcWorld(World):
                     own(rec, v, None, ("item",))
                     if isinstance(v, list) and v and not str(v[0]).startswith(tok + "#"):
                         ctx.violate("foreign-reply", "token", "stream %s yielded %r" % (tok, v))
-                elif tag == "other":
-                    pass
+                elif tag == "stop":
+                    # the iterator may only report exhaustion when the server's generator really produced all its items
+                    produced = sum(1 for (_st, kind, t) in log.values() if kind == "item" and str(t).startswith(tok + "#"))
+                    if produced < rec.get("n", 0):
+                        ctx.violate("premature-stopiteration", "", "stream %s: the client iterator stopped after fetch %d although the server "
+                                    "generator produced only %d of %d items" % (tok, rec["j"], produced, rec["n"]))
+                    else:
+                        ctx.probe("stream_exhausted")
             # clause 5: recovery after a failed call
             if prev_failed and not faults_during and k in ("echo", "boom", "batch", "set", "get", "stream-open"):
                 good = tag in ("ok", "remote")
